@@ -11,12 +11,15 @@ from vf.runner import Ctx
 PROPERTY = "C02"
 TECHNIQUE = ("Hypothesis-generated call histories; oracles: re-issued calls (same object after other calls, fresh instance, "
              "reverse order) are bitwise equal; argument snapshots (values and field identities) unchanged, also in eager "
-             "mode; eager vs jit vs vmap vs lax.scan agree; jaxpr has no effects/callbacks")
+             "mode; eager vs jit vs vmap vs lax.scan agree; jaxpr has no effects/callbacks; process-isolation differential "
+             "(trace of a configuration in a process that built nothing else vs one that first built other configurations)")
 RULE = ("cases = (env, entry, 2-4 reset keys, plan of <= 12 steps per key); every (args -> result) pair is stored and "
         "re-issued later on the same object, on a fresh instance of the same configuration in reverse order, eagerly (rationed), "
         "inside a vmap batch built from states of different episodes, and as one lax.scan rollout; non-trivial = "
         "comparisons whose state is >= 1 step deep (and, for vmap, whose batch elements differ); distinct by "
-        "(env, entry, comparison kind, state digest)")
+        "(env, entry, comparison kind, state digest); isolation cases = (env, drawn order in which all menu entries are built and "
+        "abstractly traced, the last-built entries as targets, key, 3 legal steps): one subprocess with that history, one "
+        "fresh subprocess per target, and the worker itself")
 ASSUMPTIONS = [
     "float leaves compared with rtol 1e-5 / atol 1e-6 across transformations (measured 1e-7 differences on the unchanged "
     "tree), bitwise for repetitions under the same transformation and for int/bool/key leaves",
@@ -247,9 +250,50 @@ def static_checks(ctx, rig):
             ctx.fail("jaxpr.effects", b.name, f"{name} trace contains an effect or callback", p, case)
 
 
+def isolation_case(ctx, env, targets, build, key, rs, fail):
+    """Process-isolation differential: the trace of each target configuration must be the same in (a) a process that
+    builds nothing else, (b) a process that first builds and abstractly traces all configurations in `build` (in that
+    order), (c) this worker (arbitrary history)."""
+    from vf import isolate
+
+    spec = {"env": env, "key": list(key), "rs": list(rs)}
+    polluted = isolate.spawn(dict(spec, build=list(build), targets=list(targets)))
+    alone_p = [isolate.spawn(dict(spec, build=[], targets=[t])) for t in targets]
+    here = {t: isolate.trace(envs.bundle(env, t), key, rs) for t in targets[:1]}
+    res = [isolate.collect(p) for p in [polluted] + alone_p]
+    for which, r in zip(["after_others"] + [f"alone:{t}" for t in targets], res):
+        if "error" in r:
+            if "jumanji/" in r.get("tb", "").replace("/verif/", ""):
+                fail("exception", f"isolated:{r['error'].split(':')[0]}", f"{which}: {r['error']}")
+                return
+            raise RuntimeError(f"isolated process ({which}): {r['error']}\n{r.get('tb', '')}")
+    for ti, t in enumerate(targets):
+        alone = res[1 + ti]["traces"][t]
+        others = [("after_other_configurations", res[0]["traces"][t])]
+        if t in here:
+            others.append(("this_worker", here[t]))
+        for name, other in others:
+            for c, (x, y) in enumerate(zip(alone, other)):
+                ctx.evals()
+                bad = sorted(k for k in x if x[k] != y.get(k))
+                if bad or set(x) != set(y):
+                    kind = "reset" if c == 0 else "step"
+                    fail(f"isolation.{name}", f"{kind} result depends on what the process built before",
+                         f"call #{c} ({kind}) of {t} differs from a process that built nothing else (configurations built "
+                         f"first: {build if name != 'this_worker' else 'worker history'}): leaves {bad[:4]}")
+                    break
+        ctx.nontrivial(env, t, "isolation", tuple(build), tuple(key))
+    ctx.count("isolation_cases")
+
+
 def work_items(tier, flt):
     scale = (flt or {}).get("scale", 1.0)
     items = []
+    for env in envs.select_envs(envs.ENV_NAMES, flt):
+        if not (flt and flt.get("entry")) and len(envs.entries(env)) > 1:
+            items.append({"env": env, "entry": "*", "kind": "isolation", "n": 1 if tier == "quick" else 3,
+                          "targets": 3 if tier == "quick" else 99,
+                          "cost": {"BinPack": 6, "MMST": 6, "PacMan": 5, "Sudoku": 3}.get(env, 2)})
     for env in envs.select_envs(envs.ENV_NAMES, flt):
         es = [SHORT_ENTRY[env]]
         if tier == "thorough":
@@ -263,7 +307,32 @@ def work_items(tier, flt):
     return items
 
 
+def run_isolation_item(item, seed):
+    ctx = Ctx(PROPERTY, item)
+    env = item["env"]
+    names = envs.entries(env)
+
+    def one(order, key, rs):
+        build = list(order)
+        targets = build[::-1][:item.get("targets", 3)]      # the configurations built last have the most predecessors
+        case = {"env": env, "kind": "isolation", "targets": targets, "build": build, "key": list(key), "rs": list(rs)}
+
+        def fail(oracle, sig, msg):
+            ctx.fail(oracle, env, sig, msg, case, size=len(build) * 10 + len(rs))
+
+        with ctx.guard(env, case, size=10**6):
+            isolation_case(ctx, env, targets, build, key, rs, fail)
+            if len(ctx.samples) < 2:
+                ctx.sample(case)
+
+    hyp.drive({"order": st.permutations(names), "key": episodes.keys(),
+               "rs": st.lists(st.integers(0, 10**6), min_size=3, max_size=3)}, one, seed, item["n"])
+    return ctx.result()
+
+
 def run_item(item, seed, tier):
+    if item.get("kind") == "isolation":
+        return run_isolation_item(item, seed)
     ctx = Ctx(PROPERTY, item)
     env, entry = item["env"], item["entry"]
     with ctx.guard(env, {"env": env, "entry": entry, "stage": "construct"}):
@@ -304,6 +373,13 @@ def run_item(item, seed, tier):
 def replay(case):
     ctx = Ctx(PROPERTY, {})
     env = case["env"]
+    if case.get("kind") == "isolation":
+        def fail_i(oracle, sig, msg):
+            ctx.fail(oracle, env, sig, msg, case)
+
+        with ctx.guard(env, case):
+            isolation_case(ctx, env, case["targets"], case["build"], case["key"], case["rs"], fail_i)
+        return list(ctx.failures.values())
     with ctx.guard(env, case):
         rig = Rig(env, case["entry"])
         if case.get("stage") == "construct":
